@@ -1,7 +1,7 @@
 """C08 - decoding, pseudo-expansion and constant folding follow RV32IM.
 Theorems: Props/C08.v.  Tie: MathOp::operate (debug + release) against the extracted model on a
 boundary grid squared plus random pairs; the spec value comes from the extracted FoldSpec.eval."""
-import re
+import re, random
 import lib, asm_manual, interp
 from props import common
 
@@ -87,6 +87,78 @@ def fold_cases(ctx):
         else:
             cmds.append("op %s %d %d" % (OPS[i % len(OPS)], x, y))
     return cmds
+
+
+def reads_check(ctx):
+    """which registers a decoded line READS (round 8: `csrrw rd, csr, rs1` said to read rd instead of rs1).  The read set
+    is observed through liveness: in `main: <line> ; li a7, 10 ; ecall` (with `lbl:` in front of a second exit) the
+    registers live into the line are its reads plus what is live behind it and not written.  Judged against the manual:
+    (a) every register whose VALUE changes the line's architectural effect on some sampled register file must be live in;
+    (b) nothing is live in that is neither live behind the line nor named in the line; (c) for CSR lines the set is exact:
+    the source register of the register forms (unless x0), nothing for the immediate forms."""
+    rng = random.Random(ctx.seed * 31 + 8)
+    forms = asm_manual.forms(rng)
+    keep = []
+    for text, exp in forms:
+        try:
+            e0 = exp([0] * 32)
+        except Exception:
+            continue
+        if all(e[0] in ("reg", "load", "store", "csr", "csri", "branch") for e in e0):
+            keep.append((text, exp))
+    progs = ["main:\n%s\nli a7, 10\necall\nlbl:\nli a7, 10\necall\n" % t for t, _ in keep]
+    impl = lib.run_impl(ctx, [lib.store_cmd("cfg live -", [("a.s", p_)], "a.s") for p_ in progs], tag="reads")
+    bad, checked = [], 0
+    import dump
+    states = [[0] + [rng.choice([0, 1, -1, 7, 2 ** 31 - 1, -2 ** 31, rng.randrange(-2 ** 31, 2 ** 31)]) for _ in range(31)] for _ in range(5)]
+    for (text, exp), prog, line in zip(keep, progs, impl):
+        g = dump.parse(lib._PICKS.sub("", line))
+        if g is None:
+            continue
+        ns = g["nodes"]
+        first = next((n for n in ns if n.kind not in ("progentry", "funcentry")), None)
+        nxt = [n for n in ns if n.kind == "iarith" and dump.val(n.body[2]) == "17"]
+        if first is None or not nxt:
+            continue
+        behind = 0
+        for n in nxt:
+            behind |= n.li
+        sem = set()
+        for r in range(1, 32):
+            for rg in states:
+                alt = list(rg)
+                alt[r] = rg[r] ^ 0x55 if rg[r] ^ 0x55 != rg[r] else rg[r] + 1
+                alt[r] = interp.s32(alt[r])
+                if exp(rg) != exp(alt):
+                    sem.add(r)
+                    break
+        e0 = exp(states[0])
+        named = set()
+        for tok in re.findall(r"[A-Za-z_][A-Za-z0-9_]*", text):
+            if tok.lower() in asm_manual.ABI:
+                named.add(asm_manual.ABI.index(tok.lower()))
+            elif re.fullmatch(r"x([0-9]|[12][0-9]|3[01])", tok.lower()):
+                named.add(int(tok[1:]))
+        live = set(r for r in range(32) if (first.li >> r) & 1)
+        why = None
+        miss = sorted(r for r in sem if r not in live)
+        extra = sorted(r for r in live if r not in named and not ((behind >> r) & 1))
+        if miss:
+            why = "the value of %s changes what `%s` does, but the line is not said to read it (live in: %s)" % (
+                [asm_manual.ABI[r] for r in miss], text, [asm_manual.ABI[r] for r in sorted(live)])
+        elif extra:
+            why = "`%s` is said to read %s, which it does not name" % (text, [asm_manual.ABI[r] for r in extra])
+        elif e0 and e0[0][0] in ("csr", "csri"):
+            rd_ = e0[0][2]
+            want = (set(r for r in range(32) if (behind >> r) & 1) - ({rd_} - {0})) | ({e0[0][4]} - {0} if e0[0][0] == "csr" else set())
+            if live != want:
+                why = "`%s` reads exactly %s; live into it: %s, expected %s" % (
+                    text, [asm_manual.ABI[r] for r in sorted(({e0[0][4]} - {0}) if e0[0][0] == "csr" else set())],
+                    [asm_manual.ABI[r] for r in sorted(live)], [asm_manual.ABI[r] for r in sorted(want)])
+        checked += 1
+        if why:
+            bad.append(dict(profile="debug", cmd="reads " + text, program=prog, impl=line[:400], why=why))
+    return checked, bad
 
 
 def run(ctx):
@@ -204,6 +276,10 @@ def run(ctx):
         failing.append(dict(profile="debug", cmd="parse " + d["text"], **d))
     for d in ddis:
         disagreements.append(dict(profile="debug", cmd="parse " + d["text"], **d))
+    nreads, rbad = reads_check(ctx)
+    evaluations += nreads
+    failing += rbad
+    ctx.coverage["read_sets_checked"] = nreads
     ctx.coverage["decode_forms"] = len(forms)
     ctx.coverage["decode_mnemonics"] = len(set(t.split()[0] for t, _ in forms))
     ctx.coverage.update(
